@@ -303,6 +303,8 @@ KINDS = {
     'C07': ('m', 'sub', 'mk', 'arm'),
     'C14': None,       # everything
     'C17': ('mk', 'fld', 'BAD-STRUCT', 'BAD-FIELDS'),
+    # identifiers that coincide across roles (a hook named like an event, look-alike states): bodies, methods, arms, variants
+    'C18': ('b', 'm', 'arm', 'ev', 'sub'),
 }
 
 
